@@ -1968,10 +1968,20 @@ class collect(Stream):
     def flush(self, _=None):
         out = tuple(self.cache)
         metadata = list(self.metadata_cache)
-        self._emit(out, metadata)
+        result = self._emit(out, metadata)
         self._release_refs(metadata)
         self.cache.clear()
         self.metadata_cache.clear()
+        if result and self.loop is not None:
+            # hand the consumers' awaitables back to whoever triggered the
+            # flush (``trigger.sink(collector.flush)`` then waits for them);
+            # a consumer written as a native coroutine only runs once it is
+            # scheduled
+            try:
+                return gen.convert_yielded(result)
+            except RuntimeError:  # no event loop in the calling thread
+                pass
+        return result
 
 
 @Stream.register_api()
